@@ -20,7 +20,7 @@ LEVEL = "exploration"
 RULE = ("exhaustive: 25 EEMS 2.0 names x {with, without NewFieldName} x {with, without OutFileName} x {bare, 'Result =' form}; random: "
         "EEMS models of 2-12 commands written in 2.0 syntax (any graph shape, optionally mixed with MPilot-style commands) in all "
         "W-SYNTAX layouts; distinct by (set of 2.0 names used, naming styles, mixed?, layout style)")
-REQUIRED_COUNTERS = ["repeated_loads_compared", "cli_runs_of_eems2_files", "names_checked", "translations_compared", "result_sets_compared", "restricted_library_histories"]
+REQUIRED_COUNTERS = ["repeated_loads_compared", "user_library_files", "cli_runs_of_eems2_files", "names_checked", "translations_compared", "result_sets_compared", "restricted_library_histories"]
 EXHAUSTIVE_NOTE = "all 25 mapped names x 8 naming/argument forms in both tiers"
 ASSUMPTIONS = ["the harness's name table restates the mapping by meaning (MEANTOMID is the fuzzy mean-to-mid conversion, ORNEG the minimum)",
                "2.0 commands with neither a result name nor NewFieldName/InFieldName, and OutFileName on MPilot-style commands inside a 2.0 file, are don't-care"]
@@ -46,6 +46,10 @@ def cases(ctx):
                     if ctx.mine(idx):
                         yield {"kind": "name", "v2": name, "newfield": newfield, "outfile": outfile, "explicit": explicit, "rseed": idx}
                     idx += 1
+    # files that mix EEMS 2.0 commands with MPilot-style commands of a user's own library whose names equal 2.0 names but for
+    # letter case: only the 2.0 names are translated
+    for i in range(ctx.n(60, 3000)):
+        yield {"kind": "usermix", "rseed": rng.randrange(10 ** 9)}
     for i in range(ctx.n(500, 40000)):
         m = models.gen_model(rng, n_ops=rng.randint(1, 10), sinks=False, table=models.gen_table(rng, exotic_names=False))   # READ may take its result name from the column
         if i % 5 == 0:
@@ -83,6 +87,9 @@ def _v2_form(c, rng, mixed, force=None):
             args["NewFieldName"] = res
     if rng.random() < 0.4:
         args["OutFileName"] = "ignored_out.csv"
+        if rng.random() < 0.3:
+            # the output file of the 2.0 model as users write Windows paths (single backslashes, not all of them escapes)
+            args["OutFileName"] = {"t": "raw", "text": rng.choice(['"C:\\My Data\\eems\\results.csv"', "'D:\\Models\\EEMS\\out dir\\m.csv'", '"..\\Output\\Model_1.csv"'])}
     if rng.random() < 0.5:
         # EEMS 2.0 files do not promise any argument order (NewFieldName may come first)
         keys = list(args)
@@ -125,7 +132,7 @@ def render_pair(model, rng, mixed, style):
         out = []
         for c in cmds:
             ks = c.get("kinds") or kinds.get(c["cmd"], {})
-            args = [{"name": a, "value": models.value_ast(v, ks.get(a, "any"), None)} for a, v in c["args"].items()]
+            args = [{"name": a, "value": v if isinstance(v, dict) and v.get("t") == "raw" else models.value_ast(v, ks.get(a, "any"), None)} for a, v in c["args"].items()]
             out.append({"result": c["result"], "command": c["cmd"], "args": args, "trail": False})
         return {"commands": out}
 
@@ -136,10 +143,10 @@ def _render(a, rng, style):
     return syntax.render(a, rng, style)
 
 
-def _load_run(text, d):
+def _load_run(text, d, libs=None):
     from mpilot.program import Program
     try:
-        p = Program.from_source(text, working_dir=d)
+        p = Program.from_source(text, working_dir=d) if libs is None else Program.from_source(text, libraries=libs, working_dir=d)
     except Exception as e:
         return ("load-error", type(e).__name__, e), None, None
     try:
@@ -154,9 +161,46 @@ def _load_run(text, d):
     return ("ok",), st, res
 
 
+def run_usermix(ctx, case):
+    from mpilot.program import Program
+    rng = random.Random(case["rseed"])
+    d = ctx.scratch()
+    with open(os.path.join(d, "in.csv"), "w") as f:
+        f.write("X0,X1\n1,2\n3,4\n5,7\n")
+    names = ["dif", "Dif", "union", "Union", "min", "sum", "not", "Not", "or", "read", "Read", "mean", "Copyfield", "xor"]
+    lines = ['READ(InFileName = "in.csv", InFieldName = X0)', 'READ(InFileName = "in.csv", InFieldName = X1, NewFieldName = B)']
+    want = {"X0": "EEMSRead", "B": "EEMSRead"}
+    for k in range(rng.randint(1, 4)):
+        nm = rng.choice(names)
+        args = rng.choice(["A = X0", "InFieldNames = [X0, B]", "V = %d" % k, "A = B, V = 2"])
+        lines.append("U%d = %s(%s)" % (k, nm, args))
+        want["U%d" % k] = nm
+    if rng.random() < 0.5:
+        lines.append("SUM(InFieldNames = [X0, B], NewFieldName = S)")
+        want["S"] = "Sum"
+    head, tail = lines[:2], lines[2:]
+    rng.shuffle(tail)
+    text = "\n".join(head + tail)
+    ctx.count("translations_compared")
+    ctx.count("user_library_files")
+    ctx.feature(("usermix", tuple(sorted(set(want.values())))[:5]))
+    try:
+        p = Program.from_source(text, libraries=arr.CSV_LIBS + ("usercmds",), working_dir=d)
+    except Exception as e:
+        ctx.fail("user-library-command-in-an-eems2-file:load-fails-%s" % type(e).__name__, {"text": text, "error": str(e)[:200]})
+        return
+    got = {n: type(c).__name__ for n, c in p.commands.items()}
+    if got != want:
+        bad = sorted(n for n in want if got.get(n) != want[n])
+        ctx.fail("user-library-command-in-an-eems2-file:%s" % ("replaced-by-a-built-in" if any(n.startswith("U") for n in bad) else "program-differs"),
+                 {"text": text, "differs": {n: [want[n], got.get(n)] for n in bad[:4]}})
+
+
 def run_case(ctx, case):
     if case["kind"] == "name":
         return run_name(ctx, case)
+    if case["kind"] == "usermix":
+        return run_usermix(ctx, case)
     rng = random.Random(case["rseed"])
     model = case["model"]
     d = ctx.scratch()
@@ -177,8 +221,14 @@ def run_case(ctx, case):
         except Exception:
             pass
         ctx.count("restricted_library_histories")
-    o2, s2, r2 = _load_run(t2, d)
-    o3, s3, r3 = _load_run(t3, d)
+    libs = None
+    if case["rseed"] % 4 == 3:
+        # the libraries named in another legitimate way: only those the model needs, or the reader by its module
+        fuzzy = any(c["cmd"] in arr.FUZZY_OUTPUT or c["cmd"] in arr.FUZZY_INPUT for c in model["commands"])
+        libs = ("mpilot.libraries.eems.basic", "mpilot.libraries.eems.csv") if not fuzzy else ("mpilot.libraries.eems.fuzzy", "mpilot.libraries.eems.csv.io", "mpilot.libraries.eems.basic")
+        ctx.count("other_library_lists")
+    o2, s2, r2 = _load_run(t2, d, libs)
+    o3, s3, r3 = _load_run(t3, d, libs)
     detail = {"v2_text": t2[:1500], "translated_text": t3[:1500]}
     if o2[0] != o3[0] or (o2[0] == "load-error" and o2[1] != o3[1]):
         bad = [c["cmd"] for c in v2cmds if c["cmd"] in V2]
@@ -218,7 +268,7 @@ def run_case(ctx, case):
     if case["rseed"] % 2 == 0:
         # the very same 2.0 file loaded again in this process translates to the very same program
         ctx.count("repeated_loads_compared")
-        o2b, s2b, r2b = _load_run(t2, d)
+        o2b, s2b, r2b = _load_run(t2, d, libs)
         if o2b[:2] != o2[:2]:
             ctx.fail("second-load-of-the-same-file:outcome-%s" % "/".join(o2b[:2]), dict(detail, error=repr(o2b[2])[:200] if len(o2b) > 2 else None))
             return
